@@ -1,5 +1,6 @@
 import QV.Model.Compiler
 import QV.Proofs.Circuit
+import QV.Proofs.Bennett
 /-!
 # C03 – Compiled circuits are clean: inputs preserved, scratch qubits back to zero
 
@@ -65,6 +66,23 @@ theorem untargeted_qubit_unchanged (gs : List AGate) (q : Nat)
     split
     · exact gate_touches_only_target g s q (h g List.mem_cons_self)
     · rfl
+
+/-- **Bennett replay with a keep set** (what `uncompute_all(keep)` relies on): for every list of
+X/CX/MCX gates on distinct wires and every keep set `K` such that no gate with an unkept target
+reads a kept qubit, the body followed by the reversed unkept-target gates leaves the kept qubits as
+the body left them and every other qubit as it was at the start. -/
+theorem bennett_replay_keep (K : Nat → Bool) (gs : List AGate) (hn : ∀ g ∈ gs, g.wires.Nodup)
+    (hs : ReplaySafe K gs) (s : BState) :
+    let final := runClassical (gs ++ (replayed K gs).reverse) s
+    (∀ q, K q = true → final.getD q false = (runClassical gs s).getD q false) ∧
+    (∀ q, K q = false → final.getD q false = s.getD q false) :=
+  bennett_replay K gs hn hs s
+
+/-- non-vacuity of `bennett_replay_keep`: a Toffoli into scratch qubit 2 copied to the kept qubit 3 -/
+example : ReplaySafe (fun q => q == 3) [{ cls := .CCX, wires := [0, 1, 2] }, { cls := .CX, wires := [2, 3] }] := by
+  intro g hg
+  simp at hg
+  rcases hg with rfl | rfl <;> simp [targetIn, controlsOff]
 
 /-- non-vacuity: compute-copy-uncompute of `a & b` is clean with output qubit 3 -/
 example : validateClean [{ cls := .CCX, wires := [0, 1, 2] }, { cls := .CX, wires := [2, 3] },
